@@ -13,7 +13,9 @@ for id in $IDS; do
   for p in mutants/$id-*.patch; do
     [ -f "$p" ] || continue
     name=$(basename "$p" .patch); name=${name#$id-}
-    out=$(./bin/vcheck $id --mutant $name --tier ${TIER:-quick} 2>&1); code=$?
+    tier=${TIER:-quick}
+    case "$name" in *.thorough) tier=thorough;; esac
+    out=$(./bin/vcheck $id --mutant $name --tier $tier 2>&1); code=$?
     det="MISSED(exit $code)"
     [ $code -eq 1 ] && det="detected"
     [ $code -eq 2 ] && det="ERROR"
